@@ -16,10 +16,18 @@
   schedule entry, exactly what the deterministic scheduler of the harness
   lets a real thread do between two yield points).
 
-  The engine takes NO lock around the read-modify-write of an adjacency list
-  (`add_edge_to_list` / `remove_edge_from_list`): `index_locks` only guard the
-  in-memory property indexes, `batch_unique_lock` is only taken when a unique
-  constraint exists.  Hence no lock steps appear below.
+  Since /repo 81b9c5b4 the read-modify-write of an adjacency list (`add_edge_to_list` /
+  `remove_edge_from_list`) runs under `edge_list_lock(key)`: a write lock on one stripe of
+  `index_locks`, the stripe chosen by a hash of the list key, taken BEFORE the `store.get`
+  and released after the `store.put` (or after the `get` when the key is missing).  The model
+  has one lock per list key (`Prog.acq k` / `Prog.rel k`).  In the code two different keys may
+  share a stripe: that only adds blocking (fewer interleavings), never removes the mutual
+  exclusion of two updates of the same key, so every real interleaving is an interleaving of
+  the model.  Acquire and release are not yield points: they happen silently after the
+  preceding store call; a thread whose next step is the acquire of a held lock cannot run.
+  The programs of the code before the fix are kept as `…Old` (regression witnesses).
+  `batch_unique_lock` is only taken when a unique constraint exists; the in-memory index
+  maintenance uses the same stripes but holds them across no store call.
 
   Import-free, total, computable.
 -/
@@ -99,14 +107,28 @@ inductive Prog where
   | ex (k : Key) (c : Bool → Prog)
   | allocN (c : Nat → Prog)              -- node_counter.fetch_add(1) + 1   (no yield point)
   | allocE (c : Nat → Prog)              -- edge_counter.fetch_add(1) + 1   (no yield point)
+  | acq (k : Key) (c : Prog)             -- edge_list_lock(k).write()        (no yield point, blocks)
+  | rel (k : Key) (c : Prog)             -- drop of that guard               (no yield point)
 
-/-- `add_edge_to_list`: get (missing ⇒ new tensor), push unless present, put. No lock. -/
+/-- `add_edge_to_list`: lock the list; get (missing ⇒ new tensor), push unless present, put; unlock -/
 def addTo (k : Key) (e : Nat) (c : Prog) : Prog :=
+  .acq k <| .get k fun v =>
+    .put k (.list (if e ∈ listOf v then listOf v else listOf v ++ [e])) (.rel k c)
+
+/-- `remove_edge_from_list`: lock the list; get; if the key exists, filter and put back; unlock -/
+def rmFrom (k : Key) (e : Nat) (c : Prog) : Prog :=
+  .acq k <| .get k fun v =>
+    match v with
+    | none => .rel k c
+    | some val => .put k (.list ((listOfVal val).filter (fun x => x != e))) (.rel k c)
+
+/-- `add_edge_to_list` before 81b9c5b4: no lock -/
+def addToOld (k : Key) (e : Nat) (c : Prog) : Prog :=
   .get k fun v =>
     .put k (.list (if e ∈ listOf v then listOf v else listOf v ++ [e])) c
 
-/-- `remove_edge_from_list`: get; if the key exists, filter and put back. No lock. -/
-def rmFrom (k : Key) (e : Nat) (c : Prog) : Prog :=
+/-- `remove_edge_from_list` before 81b9c5b4: no lock -/
+def rmFromOld (k : Key) (e : Nat) (c : Prog) : Prog :=
   .get k fun v =>
     match v with
     | none => c
@@ -130,12 +152,30 @@ def createEdgeFrom (eid a b : Nat) (d : Bool) (ty v : Nat) : Prog :=
   if d then .done (.id eid)
   else addTo (.out b) eid <| addTo (.inn a) eid <| .done (.id eid)
 
+def createEdgeAlloc (a b : Nat) (d : Bool) (ty v : Nat) : Prog :=
+  .allocE fun eid => createEdgeFrom eid a b d ty v
+
+def createEdgeCheckB (a b : Nat) (d : Bool) (ty v : Nat) : Prog :=
+  .ex (.node b) fun okb =>
+    if !okb then .done (.nodeNotFound b) else createEdgeAlloc a b d ty v
+
 def createEdgeProg (a b : Nat) (d : Bool) (ty v : Nat) : Prog :=
+  .ex (.node a) fun oka =>
+    if !oka then .done (.nodeNotFound a) else createEdgeCheckB a b d ty v
+
+def createEdgeFromOld (eid a b : Nat) (d : Bool) (ty v : Nat) : Prog :=
+  .put (.edge eid) (.edge ⟨a, b, d, ty, v⟩) <|
+  addToOld (.out a) eid <|
+  addToOld (.inn b) eid <|
+  if d then .done (.id eid)
+  else addToOld (.out b) eid <| addToOld (.inn a) eid <| .done (.id eid)
+
+def createEdgeProgOld (a b : Nat) (d : Bool) (ty v : Nat) : Prog :=
   .ex (.node a) fun oka =>
     if !oka then .done (.nodeNotFound a)
     else .ex (.node b) fun okb =>
       if !okb then .done (.nodeNotFound b)
-      else .allocE fun eid => createEdgeFrom eid a b d ty v
+      else .allocE fun eid => createEdgeFromOld eid a b d ty v
 
 def deleteEdgeBody (e : Nat) (r : EdgeRec) : Prog :=
   rmFrom (.out r.src) e <|
@@ -150,12 +190,31 @@ def deleteEdgeProg (e : Nat) : Prog :=
     | none => .done (.edgeNotFound e)
     | some r => deleteEdgeBody e r
 
+def deleteEdgeBodyOld (e : Nat) (r : EdgeRec) : Prog :=
+  rmFromOld (.out r.src) e <|
+  rmFromOld (.inn r.dst) e <|
+  let tail : Prog := .del (.edge e) fun ok => .done (if ok then .ok else .storage)
+  if r.directed then tail
+  else rmFromOld (.out r.dst) e <| rmFromOld (.inn r.src) e <| tail
+
+def deleteEdgeProgOld (e : Nat) : Prog :=
+  .get (.edge e) fun v =>
+    match edgeOf v with
+    | none => .done (.edgeNotFound e)
+    | some r => deleteEdgeBodyOld e r
+
 /-- the per-edge clean-up of `delete_node` (both paths): only the OTHER endpoint's lists -/
 def delNodeEdge (id e : Nat) (r : EdgeRec) (c : Prog) : Prog :=
   let other := if r.src = id then r.dst else r.src
   let c3 := if (!r.directed && other != id) then rmFrom (.out other) e (rmFrom (.inn other) e c) else c
   let c2 := if r.dst = id then rmFrom (.out other) e c3 else c3
   if r.src = id then rmFrom (.inn other) e c2 else c2
+
+def delNodeEdgeOld (id e : Nat) (r : EdgeRec) (c : Prog) : Prog :=
+  let other := if r.src = id then r.dst else r.src
+  let c3 := if (!r.directed && other != id) then rmFromOld (.out other) e (rmFromOld (.inn other) e c) else c
+  let c2 := if r.dst = id then rmFromOld (.out other) e c3 else c3
+  if r.src = id then rmFromOld (.inn other) e c2 else c2
 
 /-- sequential path (< PARALLEL_THRESHOLD edges): a missing edge record is skipped, the
     edge key is deleted regardless, errors of that delete are ignored (`.ok()`) -/
@@ -176,6 +235,14 @@ def delNodeParLoop (id : Nat) : List Nat → Bool → (Bool → Prog) → Prog
       match edgeOf v with
       | some r => delNodeEdge id e r (.del (.edge e) fun ok => delNodeParLoop id es (failed || !ok) c)
       | none => delNodeParLoop id es true c
+
+def delNodeParLoopOld (id : Nat) : List Nat → Bool → (Bool → Prog) → Prog
+  | [], failed, c => c failed
+  | e :: es, failed, c =>
+    .get (.edge e) fun v =>
+      match edgeOf v with
+      | some r => delNodeEdgeOld id e r (.del (.edge e) fun ok => delNodeParLoopOld id es (failed || !ok) c)
+      | none => delNodeParLoopOld id es true c
 
 def delNodeTail (id : Nat) : Prog :=
   .del (.node id) fun ok1 =>
@@ -252,9 +319,16 @@ def Op.prog : Op → Prog
   | .updateNode n l v => updateNodeProg n l v
   | .updateEdge e v => updateEdgeProg e v
 
+/-- the operations as they were before 81b9c5b4 (no list lock) -/
+def Op.progOld : Op → Prog
+  | .createEdge a b d ty v => createEdgeProgOld a b d ty v
+  | .deleteEdge e => deleteEdgeProgOld e
+  | op => op.prog
+
 /-! ### semantics -/
 
-/-- one atomic store call (or counter increment) -/
+/-- one atomic store call (or counter increment); lock-oblivious (`acq`/`rel` are skipped): the
+    semantics of a program run alone, and of the lock-free interleavings `runP` -/
 def Prog.step : Prog → St → Prog × St
   | .done r, s => (.done r, s)
   | .get k c, s => (c (s.kv k), s)
@@ -263,8 +337,10 @@ def Prog.step : Prog → St → Prog × St
   | .ex k c, s => (c (s.kv k).isSome, s)
   | .allocN c, s => (c (s.nn + 1), { s with nn := s.nn + 1 })
   | .allocE c, s => (c (s.ne + 1), { s with ne := s.ne + 1 })
+  | .acq _ c, s => (c, s)
+  | .rel _ c, s => (c, s)
 
-/-- sequential execution of a whole program -/
+/-- sequential execution of a whole program (alone, a lock is always free) -/
 def run1 : Prog → St → Res × St
   | .done r, s => (r, s)
   | .get k c, s => run1 (c (s.kv k)) s
@@ -273,6 +349,8 @@ def run1 : Prog → St → Res × St
   | .ex k c, s => run1 (c (s.kv k).isSome) s
   | .allocN c, s => run1 (c (s.nn + 1)) { s with nn := s.nn + 1 }
   | .allocE c, s => run1 (c (s.ne + 1)) { s with ne := s.ne + 1 }
+  | .acq _ c, s => run1 c s
+  | .rel _ c, s => run1 c s
 
 def apply (s : St) (op : Op) : Res × St := run1 op.prog s
 
@@ -306,38 +384,75 @@ def Thread.finished (t : Thread) : Bool :=
   | some (.done _), [] => true
   | _, _ => false
 
-/-- run the silent part after a store call: counter increments, and at the end of an
-    operation record the result and enter the next operation (up to its first store call).
-    `fuel` bounds the number of operations entered (≥ rest.length + 1 suffices). -/
-def settle : Nat → Prog → List Op → List Res → St → (Prog × List Op × List Res × St)
-  | 0, p, rest, rs, s => (p, rest, rs, s)
-  | fuel + 1, p, rest, rs, s =>
-    match p with
-    | .allocN c => settle fuel (c (s.nn + 1)) rest rs { s with nn := s.nn + 1 }
-    | .allocE c => settle fuel (c (s.ne + 1)) rest rs { s with ne := s.ne + 1 }
-    | .done r =>
-      match rest with
-      | [] => (.done r, [], rs, s)
-      | op :: rest' => settle fuel op.prog rest' (r :: rs) s
-    | p => (p, rest, rs, s)
+/-- what a thread is doing between two yield points: its program, the operations still to run,
+    the results so far; the store with the counters; the list keys whose lock is held -/
+structure Cfg where
+  p : Prog
+  rest : List Op
+  rs : List Res
+  s : St
+  held : List Key
 
-/-- one scheduler grant to a thread: from its current yield point to its next one -/
-def Thread.turn (t : Thread) (s : St) : Thread × St :=
+/-- one silent step (no yield point): a counter increment, the end of an operation (record the
+    result, enter the next operation; `pf` says which program an operation is), a release, and —
+    only when `take` — the acquire of a FREE list lock.  `none`: the thread is at a store call, has
+    nothing left to do, or is at the acquire of a lock that is held (or that it may not take yet).
+
+    The real thread takes the lock as soon as it can (right after its previous store call, or when
+    the holder releases) and only then reaches the yield point of the list `store.get`.  The model
+    takes the lock at the latest possible moment, at the beginning of the grant that performs that
+    `store.get` (`take = true` only there): the model's critical sections are contained in the
+    real ones, so whenever the real thread performs the `store.get` the model's lock is free. -/
+def Cfg.silent (pf : Op → Prog) (take : Bool) (c : Cfg) : Option Cfg :=
+  match c.p with
+  | .allocN k => some { c with p := k (c.s.nn + 1), s := { c.s with nn := c.s.nn + 1 } }
+  | .allocE k => some { c with p := k (c.s.ne + 1), s := { c.s with ne := c.s.ne + 1 } }
+  | .done r =>
+    match c.rest with
+    | [] => none
+    | op :: rest' => some { c with p := pf op, rest := rest', rs := r :: c.rs }
+  | .acq k p' => if !take || c.held.contains k then none else some { c with p := p', held := k :: c.held }
+  | .rel k p' => some { c with p := p', held := c.held.filter (fun x => x != k) }
+  | _ => none
+
+/-- run the silent part up to the next yield point (or the end, or a held lock).  `fuel` bounds the
+    number of silent steps; between two store calls there are at most five (release, end of
+    operation, counter increment / acquire). -/
+def settle (pf : Op → Prog) (take : Bool) : Nat → Cfg → Cfg
+  | 0, c => c
+  | fuel + 1, c =>
+    match c.silent pf take with
+    | none => c
+    | some c' => settle pf take fuel c'
+
+def SETTLE_FUEL : Nat := 8
+
+/-- one scheduler grant to a thread: take the list lock if the thread is at an acquire, perform
+    the store call, run on to the next yield point or acquire.  If the lock is held (or the thread
+    has finished) the grant does nothing: the thread is not runnable. -/
+def Thread.turn (pf : Op → Prog) (t : Thread) (s : St) (held : List Key) : Thread × St × List Key :=
   match t.cur with
   | none =>
     -- `thread.start`: run up to the first store call of the first operation
     match t.rest with
-    | [] => ({ t with cur := some (.done .ok) }, s)
+    | [] => ({ t with cur := some (.done .ok) }, s, held)
     | op :: rest =>
-      let (p, rest', rs, s') := settle (2 * rest.length + 4) op.prog rest t.results s
-      ({ t with cur := some p, rest := rest', results := rs }, s')
+      let c := settle pf false SETTLE_FUEL ⟨pf op, rest, t.results, s, held⟩
+      ({ t with cur := some c.p, rest := c.rest, results := c.rs }, c.s, c.held)
   | some p =>
-    match p.label with
-    | none => (t, s)     -- finished (`done` with nothing left): a grant does nothing
+    let c0 := settle pf true SETTLE_FUEL ⟨p, t.rest, t.results, s, held⟩
+    match c0.p.label with
+    | none => ({ t with cur := some c0.p, rest := c0.rest, results := c0.rs }, c0.s, c0.held)
     | some lab =>
-      let (p1, s1) := p.step s
-      let (p2, rest', rs, s2) := settle (2 * t.rest.length + 4) p1 t.rest t.results s1
-      ({ cur := some p2, rest := rest', results := rs, trace := lab :: t.trace }, s2)
+      let r := c0.p.step c0.s
+      let c := settle pf false SETTLE_FUEL ⟨r.1, c0.rest, c0.rs, r.2, c0.held⟩
+      ({ cur := some c.p, rest := c.rest, results := c.rs, trace := lab :: t.trace }, c.s, c.held)
+
+/-- `true` when a grant lets the thread perform a store call (or start) -/
+def Thread.runnable (pf : Op → Prog) (t : Thread) (s : St) (held : List Key) : Bool :=
+  match t.cur with
+  | none => true
+  | some p => (settle pf true SETTLE_FUEL ⟨p, t.rest, t.results, s, held⟩).p.label.isSome
 
 def setAt {α : Type} : List α → Nat → α → List α
   | [], _, _ => []
@@ -345,18 +460,23 @@ def setAt {α : Type} : List α → Nat → α → List α
   | x :: xs, i + 1, a => x :: setAt xs i a
 
 /-- interpret a schedule (thread index per scheduler grant) -/
-def runThreads : List Thread → List Nat → St → List Thread × St
-  | ts, [], s => (ts, s)
-  | ts, i :: sched, s =>
+def runThreads (pf : Op → Prog) : List Thread → List Nat → St → List Key → List Thread × St × List Key
+  | ts, [], s, held => (ts, s, held)
+  | ts, i :: sched, s, held =>
     match ts[i]? with
-    | none => runThreads ts sched s
+    | none => runThreads pf ts sched s held
     | some t =>
-      let (t', s') := t.turn s
-      runThreads (setAt ts i t') sched s'
+      let r := t.turn pf s held
+      runThreads pf (setAt ts i r.1) sched r.2.1 r.2.2
 
-/-- `runSched programs schedule s`: every thread runs its list of operations -/
+/-- `runSchedWith pf programs schedule s`: every thread runs its list of operations, no lock held
+    at the start -/
+def runSchedWith (pf : Op → Prog) (programs : List (List Op)) (sched : List Nat) (s : St) : List Thread × St :=
+  let r := runThreads pf (programs.map Thread.ofOps) sched s []
+  (r.1, r.2.1)
+
 def runSched (programs : List (List Op)) (sched : List Nat) (s : St) : List Thread × St :=
-  runThreads (programs.map Thread.ofOps) sched s
+  runSchedWith Op.prog programs sched s
 
 def allFinished (ts : List Thread) : Bool := ts.all Thread.finished
 
